@@ -457,7 +457,8 @@ class Judge:
         if len(old) != len(lines):
             return f"{k} {n}: {G.KW[k]}_MODIFY changed the number of lines {len(old)} -> {len(lines)}"
         for a, b in zip(old, lines):
-            if a != b and not re.match(allowed, b.strip()):
+            # `-new_def` is bookkeeping, not a quantity: read_raw resets it (Model: SOp.modify, theorem modify_local)
+            if a != b and not re.match(allowed, b.strip()) and not re.match(r"^-new_def\s", b.strip()):
                 return f"{k} {n}: {G.KW[k]}_MODIFY changed an unnamed quantity: {a.strip()!r} -> {b.strip()!r}"
         return None
 
@@ -792,11 +793,28 @@ def hist_stats(h, hist):
                 for f in ("n", "a", "src"):
                     if isinstance(b.get(f), int) and b[f] < 0:
                         hist["negative-number"] = hist.get("negative-number", 0) + 1
+                    if isinstance(b.get(f), int) and abs(b[f]) >= 100000:
+                        hist["number>=1e5"] = hist.get("number>=1e5", 0) + 1
+                if b["op"] == "def" and b.get("eq") is not None:
+                    hist["equilibrate:" + b["kind"]] = hist.get("equilibrate:" + b["kind"], 0) + 1
+                if b["op"] == "del":
+                    for l in b["lines"]:
+                        kind = "abbreviated" if l[1] is None else ("canonical" if l[0] in G.DEL_NAME.values() or l[0] in ("all", "cell") else "alias")
+                        hist["del-option:" + kind] = hist.get("del-option:" + kind, 0) + 1
+                        if len(l) > 3 and l[3]:
+                            hist["del-continuation-line"] = hist.get("del-continuation-line", 0) + 1
+                if b["op"] == "cells":
+                    hist["cells-option:" + b.get("opt", "cells")] = hist.get("cells-option:" + b.get("opt", "cells"), 0) + 1
 
 
 def run(ctx):
     try:
         facts = gen_store.generate(ctx)
+        try:
+            import gen_keywords                     # Gen/Keywords.lean (keyword text -> KEY_x) is used by use_copy_names_resolve
+            gen_keywords.generate(ctx)
+        except ImportError:
+            pass
         source_facts()
         ctx.cov["source_facts"] = {k: facts[k] for k in ("do_run", "copy_loop", "saver", "bin_vopts", "bin_cases")}
         facts_ok = True
